@@ -82,10 +82,19 @@ def documented_scan(root, dirs, files, mp, include_ext, ext_regexes):
     return sorted(nodes), sorted(edges), {m for m in nodes if internal(m)}
 
 
+def documented_glob_regex(p: str) -> str:
+    """A glob pattern as the documentation defines it: literal text in full, a leading * any prefix, a trailing * any suffix."""
+    import re
+    st, en = p.startswith("*"), p.endswith("*") and len(p) > 1
+    text = p[(1 if st else 0):(len(p) - 1 if en else len(p))]
+    return (".*" if st else "") + re.escape(text) + (".*" if en else "$")
+
+
 def gen_patterns(rng, dirs, files):
     names = [f[-1] for f in files] + [d[-1] for d in dirs] + ["handlers", "logging", "os", "etree", "xml"]
     n = rng.choice(names)
-    return rng.choice([(n,), ("*" + n,), (n + "*",), ("*" + n + "*",), ("logging", "*" + n), ("os.path",), ("xml.*",), ("*.handlers",)])
+    return rng.choice([(n,), ("*" + n,), (n + "*",), ("*" + n + "*",), ("logging", "*" + n), ("os.path",), ("xml.*",), ("*.handlers",),
+                       ("logging.handlers",), ("xml.etree",), ("os.path", "logging.handlers")])
 
 
 def _job(args):
@@ -113,7 +122,7 @@ def _job(args):
             mps = [(root,)] + [d for d in dirs if len(d) > 1][:2]
             for mp in mps:
                 glob = gen_patterns(rng, dirs, files)
-                rx = tuple(conv(p) for p in glob)
+                rx = tuple(documented_glob_regex(p) for p in glob)      # the documented meaning, not the library's own converter
                 user_rx = rng.choice([(r"logging(\..*)?$",), (r"(os|xml)\b.*",), (r".*handlers$",), rx])
                 configs = [
                     ("exclude", dict(), False, ()),
